@@ -340,6 +340,9 @@ def real_signal(fam, N, seed):
 def real_case(inp, tracedir):
     """inp: dict(variant, family, N, sigseed, nensembles, nprocesses, noise_mode, level, max_imfs, npseed)"""
     x = real_signal(inp['family'], inp['N'], inp['sigseed'])
+    if inp.get('dtype'):
+        # coarse integer counts (a few counts of amplitude): the member noise is then a fraction of one count
+        x = np.round(np.asarray(x, dtype=float) * 3 / max(1e-12, float(np.std(x)))).astype(inp['dtype'])
     kw = dict(nensembles=inp['nensembles'], ensemble_noise=LEVELS[inp['level']], noise_mode=inp['noise_mode'],
               nprocesses=inp['nprocesses'], max_imfs=inp['max_imfs'])
     np.random.seed(inp['npseed'])
@@ -593,6 +596,15 @@ def grid(ctx):
                     cases.append(dict(variant=variant, family=fams[n % 2], N=64 + 16 * (n % 5), sigseed=ctx.seed * 7 + n % 3,
                                       nensembles=nens, nprocesses=nproc, noise_mode=mode, level=1 + n % 2,
                                       max_imfs=2 + (n % 2), npseed=(ctx.seed * 100003 + n) % (2 ** 31)))
+    # integer-typed recordings (coarse counts) with non-zero noise: every member must still get its own realisation
+    for variant in ('ensemble_sift', 'complete_ensemble_sift'):
+        for nens, nproc in (((2, 1), (3, 2), (4, 3)) if q else ((2, 1), (3, 2), (4, 3), (5, 1), (8, 8), (7, 2))):
+            for mode in ('single', 'flip'):
+                for dt in ('int16', 'int64'):
+                    n += 1
+                    cases.append(dict(variant=variant, family=fams[n % 2], N=64 + 16 * (n % 5), sigseed=ctx.seed * 7 + n % 3,
+                                      nensembles=nens, nprocesses=nproc, noise_mode=mode, level=1 + n % 2, dtype=dt,
+                                      max_imfs=2 + (n % 2), npseed=(ctx.seed * 100003 + n) % (2 ** 31)))
     return cases
 
 
@@ -625,7 +637,7 @@ def toy_cases(ctx):
 
 
 def run(ctx):
-    ctx.rule = ('real numerics: nensembles 1..%d x nprocesses 1..%d (quick tier: plus (5,1) (6,1) (8,1) (7,3) (8,2)) x {single, flip} x noise amplitude {0, 0.05, 1.0} x std, signals tones / random walk '
+    ctx.rule = ('real numerics: nensembles 1..%d x nprocesses 1..%d (quick tier: plus (5,1) (6,1) (8,1) (7,3) (8,2); plus int16 / int64 recordings of a few counts amplitude with non-zero noise) x {single, flip} x noise amplitude {0, 0.05, 1.0} x std, signals tones / random walk '
                 '/ AM-FM + noise of 64..128 samples, max_imfs 2..3, for ensemble_sift and complete_ensemble_sift; '
                 'per run the traced noise of every (member, sign) must be pairwise distinct across members (amplitude != 0), the result must be the '
                 'mean of the member decompositions recomputed from the traced inputs (flip: mean of +/-), zero amplitude must equal the classic sift.  '
